@@ -147,6 +147,14 @@ def eval_case(case):
         elif op == 'sizeof':
             req = ('RSizeof', term, kwt)
             resp = I.run_sizeof(c, kw)
+        elif op in ('cparse', 'cbuild'):
+            R.no_emit_override(c)
+            if op == 'cparse':
+                req = ('RCParse', term, kwt, case['data'], case.get('start', 0))
+                resp = I.run_cparse(c, kw, case['data'], case.get('start', 0))
+            else:
+                req = ('RCBuild', term, R.to_val(case['obj']), kwt)
+                resp = I.run_cbuild(c, case['obj'], kw)
         elif op == 'lazy':
             req = ('RLazy', term, kwt, case['data'], case.get('start', 0), list(case['history']))
             resp = I.run_lazy(c, kw, case['data'], case.get('start', 0), case['history'])
